@@ -227,8 +227,8 @@ func TestMonitorHeartBeats(t *testing.T) {
 	rapid.Check(t, func(t *rapid.T) {
 		backend := rapid.SampledFrom([]sim.Backend{sim.Mock, sim.Uni, sim.Uni, sim.Uni}).Draw(t, "backend")
 		keys := []string{"a", "b", "c"}
-		steps := []*sim.Step{{Txn: 0, Op: "begin", Client: 0, Pessimistic: true, Async: rapid.IntRange(0, 3).Draw(t, "async") != 0}}
-		for i := rapid.IntRange(1, 3).Draw(t, "nlocks"); i > 0; i-- {
+		steps := []*sim.Step{{Txn: 0, Op: "begin", Client: 0, Pessimistic: true, Async: rapid.IntRange(0, 7).Draw(t, "async") != 0}}
+		for i := rapid.SampledFrom([]int{1, 2, 2, 3, 3}).Draw(t, "nlocks"); i > 0; i-- {
 			k := rapid.SampledFrom(keys).Draw(t, "k")
 			if rapid.Bool().Draw(t, "write") {
 				steps = append(steps, &sim.Step{Txn: 0, Op: "set", Keys: []string{k}, Val: "v", LockFirst: true})
@@ -238,12 +238,12 @@ func TestMonitorHeartBeats(t *testing.T) {
 			steps = append(steps, &sim.Step{Op: "sleep", Ms: int64(rapid.IntRange(20, 50).Draw(t, "gap"))})
 		}
 		steps = append(steps, &sim.Step{Op: "sleep", Ms: int64(rapid.IntRange(60, 120).Draw(t, "open"))})
-		end := &sim.Step{Txn: 0, Op: rapid.SampledFrom([]string{"commit", "commit", "rollback"}).Draw(t, "end")}
-		if end.Op == "commit" && rapid.IntRange(0, 3).Draw(t, "park") != 0 {
+		end := &sim.Step{Txn: 0, Op: rapid.SampledFrom([]string{"commit", "commit", "commit", "commit", "rollback"}).Draw(t, "end")}
+		if end.Op == "commit" && rapid.IntRange(0, 7).Draw(t, "park") != 0 {
 			// while the request is parked the owner keeps beating; optionally another client then reads the keys: the
 			// secondaries' own ttl (never refreshed) has run out by then, the heart-beaten primary is alive
 			nested := []*sim.Step{{Op: "sleep", Ms: 65}}
-			if rapid.IntRange(0, 3).Draw(t, "reader") != 0 {
+			if rapid.IntRange(0, 7).Draw(t, "reader") != 0 {
 				nested = append(nested, &sim.Step{Txn: 9, Op: "begin", Client: 1}, &sim.Step{Txn: 9, Op: "batchget", Keys: keys}, &sim.Step{Txn: 9, Op: "rollback"})
 			}
 			end.Faults = []sim.FaultSpec{{Type: rapid.SampledFrom([]string{"Prewrite", "Prewrite", "Commit"}).Draw(t, "ptype"), Index: rapid.IntRange(0, 1).Draw(t, "pidx"), Action: rapid.SampledFrom([]string{"gateBefore", "gateAfter"}).Draw(t, "pwhen"), Nested: &sim.Step{Op: "seq", Sub: nested}}}
